@@ -84,6 +84,7 @@ type Check struct {
 type Task struct {
 	Name string
 	Run  func()
+	Free bool // a free-running (unscheduled) task of the informational race pass
 }
 
 // Start initialises the check from the environment.
@@ -249,6 +250,16 @@ func (c *Check) workDir() string {
 // with VERIF_WORKER=i/n) and merges their results. With VERIF_NOFORK=1, or for
 // a single task, everything runs in this process.
 func (c *Check) RunTasks(tasks []Task) {
+	if os.Getenv("VERIF_RACE") == "1" {
+		// informational race pass: only the free-running tasks (same filter in the parent and in every worker)
+		var free []Task
+		for _, t := range tasks {
+			if t.Free {
+				free = append(free, t)
+			}
+		}
+		tasks = free
+	}
 	if c.worker >= 0 {
 		// worker mode: run exactly the task whose index was handed to this process
 		if c.worker < len(tasks) {
